@@ -1,6 +1,12 @@
 package ledger
 
-import "verifharness/drv"
+import (
+	"fmt"
+
+	"github.com/canopy-network/canopy/lib"
+
+	"verifharness/drv"
+)
 
 // boundaries suggested by the hypotheses of the C12 theorems (`HeightsOK`, duplicate-free committee lists)
 //
@@ -89,5 +95,100 @@ func init() {
 				c.Finish()
 			}
 		}},
+		// "export the state, boot a new chain from the export": ExportState() lists every pool (incl. the swap escrow
+		// pools) AND the order books; NewStateFromGenesis writes the listed pools first and credits every open sell
+		// order's AmountForSale to the escrow pool on top. The sum oracle runs on the imported chain from height 1 on
+		// (`C04:total-supply-mismatch-genesis-import`); how the two ledgers differ is recorded as an observation (evidence `extra`).
+		scenario{"export-then-import", func(o *drv.Out, prop string) {
+			for _, listed := range []bool{false, true} {
+				g := baseGenesis()
+				g.Validators = []GenVal{{Key: BLSKeys[0], Stake: 400, Committees: []uint64{1, 2}, Output: BLSKeys[0].Addr},
+					{Key: BLSKeys[1], Stake: 1000000, Committees: []uint64{1}, Compound: true, Output: EdKeys[0].Addr, UnstakingHeight: 9},
+					{Key: EdKeys[2], Stake: 5000, Committees: []uint64{2}, Delegate: true, Output: EdKeys[2].Addr}}
+				g.Pools = []GenPool{{Id: 1, Amount: 70}, {Id: 2*65535 + 1, Amount: 30}}
+				g.Books = []GenBook{{Chain: 1, Orders: []*lib.SellOrder{SellOrder(1, 1, 120, false), SellOrder(2, 1, 80, true)}},
+					{Chain: 2, Orders: []*lib.SellOrder{SellOrder(3, 2, 55, false)}}}
+				if listed {
+					// the escrow, holding and liquidity pools of chain 1 listed explicitly, next to its order book
+					g.Pools = append(g.Pools, GenPool{Id: 1 + 65535, Amount: 300}, GenPool{Id: 1 + 16383, Amount: 7}, GenPool{Id: 1 + 32767, Amount: 11})
+				}
+				c, ok := NewChain(o, prop, g)
+				if !ok {
+					panic("scenario genesis rejected")
+				}
+				emptyBlocks(c, 1)
+				c.Mint()
+				c.Send(EdKeys[0], 10000, EdKeys[3].Addr, 12345)
+				c.Stake(BLSKeys[2], 10000, BLSKeys[2], 777, []uint64{1, 3}, false, true, BLSKeys[2].Addr)
+				c.Pause(BLSKeys[0], 10000, BLSKeys[0].Addr)
+				c.Subsidy(EdKeys[1], 10000, 2, 4242)
+				c.End()
+				emptyBlocks(c, 1)
+				before := c.Scan()
+				exp, err := c.SM.ExportState()
+				if err != nil {
+					panic(err)
+				}
+				c.Finish()
+				c2, ok := NewChain(o, prop, GenesisFromExport(g, exp))
+				if !ok {
+					o.Count("observation.export-import-rejected")
+					continue
+				}
+				c2.CompareImport(before, c2.Scan())
+				emptyBlocks(c2, 2)
+				c2.Finish()
+			}
+		}},
 	)
+}
+
+// SellOrder is a well-formed open (or buyer-locked) sell order of `amount` tokens on `chain`
+func SellOrder(n byte, chain, amount uint64, locked bool) *lib.SellOrder {
+	id := make([]byte, 20)
+	id[19] = n
+	o := &lib.SellOrder{Id: id, Committee: chain, AmountForSale: amount, RequestedAmount: amount/2 + 1,
+		SellerReceiveAddress: EdKeys[0].Addr, SellersSendAddress: EdKeys[1].Addr}
+	if locked {
+		o.BuyerReceiveAddress, o.BuyerSendAddress, o.BuyerChainDeadline = EdKeys[2].Addr, EdKeys[2].Addr, 100
+	}
+	return o
+}
+
+// CompareImport records how the ledger booted from the export of a chain differs from that chain's ledger (accounts,
+// pools, validator records, supply record, staking indexes; the height, non-signer counters and committee data are
+// "export only" and start afresh). This is an OBSERVATION, not an oracle: C04 speaks about one chain from its own
+// genesis, and the imported chain satisfies the supply identity (checked as a hard failure by the sum oracle under
+// `-genesis-import`). Observed on the current code: ExportState lists escrow pools that already hold the open orders'
+// tokens next to the order books, and NewStateFromGenesis credits the orders again: + Σ AmountForSale on import.
+func (c *Chain) CompareImport(before, after *Snap) {
+	b, a := *before, *after
+	b.Height, a.Height = 0, 0
+	b.NS, a.NS, b.CData, a.CData = nil, nil, nil, nil
+	if b.Dump() == a.Dump() {
+		c.O.Count("observation.export-import-identical")
+		return
+	}
+	switch {
+	case b.Total != a.Total:
+		c.O.Count("observation.export-import-changes-total-supply")
+	case pairs(b.Pools, "%d:%d") != pairs(a.Pools, "%d:%d"):
+		c.O.Count("observation.export-import-changes-pools")
+	default:
+		c.O.Count("observation.export-import-changes-ledger")
+	}
+	deltas, _ := c.O.Extra["export_import_total_delta"].([]int64)
+	c.O.Extra["export_import_total_delta"] = append(deltas, int64(a.Total)-int64(b.Total))
+	pool := map[uint64]uint64{}
+	for _, p := range b.Pools {
+		pool[p[0]] = p[1]
+	}
+	var diffs []string
+	for _, p := range a.Pools {
+		if pool[p[0]] != p[1] {
+			diffs = append(diffs, fmt.Sprintf("%d:%d->%d", p[0], pool[p[0]], p[1]))
+		}
+	}
+	pd, _ := c.O.Extra["export_import_pool_changes"].([]string)
+	c.O.Extra["export_import_pool_changes"] = append(pd, joinOrDash(diffs, ","))
 }
